@@ -450,8 +450,33 @@ CORPUS = [
     "c11 10 wN 0 wR 0 0 0 1 wS 0 0 0 wF 0 1 wN 1 wR 1 4 0 4 wS 1 4 1 wJ 2 0 1 wR 2 4 0 5 wR 0 0 0 3", # word UnionDisjointStates
 ]
 
+def large_trim(rng):
+    """an automaton with 9-20 rule-owning states of which only one or two are unreachable from the final states (a chain with a few side rules),
+    copies of it that share its storage and get other final states, then the read-only library operations (RemoveUnreachableStates,
+    RemoveUselessStates) on one of them: no object the step does not name may change, and the result depends on the operand only"""
+    n = rng.randint(9, 20)
+    steps = [("tN", 0), ("tR", 0, (0, 0, ()))]
+    for k in range(n - 1):
+        cs = (k,) if rng.random() < 0.75 else (k, rng.randrange(k + 1))
+        steps.append(("tR", 0, (1 if len(cs) == 1 else 2, k + 1, cs)))
+    for _ in range(rng.randint(1, 2)):              # unreachable owners: nothing leads from a final state to them
+        u = 100 + rng.randrange(5)
+        steps.append(("tR", 0, (1, u, (rng.randrange(n),))))
+    for _ in range(rng.randint(0, 2)):
+        steps.append(("tR", 0, (2, rng.randrange(1, n), (rng.randrange(n), rng.randrange(n)))))
+    steps.append(("tF", 0, n - 1))
+    steps.append(("tC", 1, 0))
+    steps.append(("tK", 2, 0, 1, 0)); steps.append(("tF", 2, rng.randrange(n)))
+    if rng.random() < 0.5: steps += [("tN", 3), ("tA", 3, 0), ("tE", 3), ("tF", 3, 100)]
+    ops = [("tU", 4, rng.choice([0, 1])), ("tL", 5, rng.choice([0, 1, 2]))]
+    rng.shuffle(ops)
+    steps += ops
+    if rng.random() < 0.4: steps.append(("tQ", 0))
+    return fmt(steps)
+
 def cases(rng, tier):
     cs = [(l, "corpus") for l in CORPUS]
+    cs += [(large_trim(rng), "targeted_large_trim") for _ in range(150 if tier == "quick" else 2000)]
     cs += [(l, "exhaustive") for l in exhaustive(3 if tier == "quick" else 4)]
     cs += [(l, "targeted") for l in targeted(rng, 1500 if tier == "quick" else 25000)]
     n = 2000 if tier == "quick" else 40000
